@@ -20,7 +20,8 @@
       goes  <= 0, +1, +2, +4, +14  (after the one unit of dust left by a bSei -> stSei conversion the
       reported rate is above 1, and every later bond is priced above 1, rounding in the pool's favour).
     - examples: [feetx_example_hypotheses], [feetx_example_bond], [feetx_example_unbond],
-      [feetx_example_unbond_closing], [feetx_example_conv_st_b], [feetx_example_conv_b_st]. *)
+      [feetx_example_unbond_closing], [feetx_example_unbond_closing_dust], [feetx_example_conv_st_b],
+      [feetx_example_conv_b_st], [peg_below_history_nonvacuous]. *)
 From Krp Require Import Tactics Prelude Fixed FMap Types Env Registry Cw20 Reward Dispatcher Hub Exec
      ExecP Hist Inv RegistryP HubFrame HubAdmin Cw20P MirrorWire MirrorP HubRates HubFee
      BooksEnv BooksHub BooksP BooksLiquid IndexRun IndexEnv IndexHandlers IndexPhases ExitWorld ExitP ExitTx
@@ -223,6 +224,9 @@ Qed.
 (** ** non-vacuity and the counter-example, on the slashed world [worldS] (rates 0.9666.., peg fee
     0.5 %, threshold 1.0; alice holds all 1 000 000 bSei, bob all 2 000 000 stSei) *)
 Ltac ft_conc := vm_compute; first [reflexivity | let X := fresh in intro X; discriminate X].
+(* solve a conjunction of closed equations left to right (earlier conjuncts instantiate the evars) *)
+Ltac ft_steps :=
+  repeat match goal with |- _ /\ _ => split; [vm_compute; reflexivity|] end; vm_compute; reflexivity.
 
 Definition ft_obs (w : world) : option (N * N * N) :=
   match hub_query_state w A_hub with
@@ -280,7 +284,7 @@ Example feetx_example_bond :
     500000 * D / hs_ber rx_sS = 517241 /\ 517241 * (D / 200) / D = 2586 /\
     tbal tb1 alice = tbal tb alice + (517241 - 2586) /\
     ft_obs w1 = Some (1466666, 1514655, 968316877440737329).
-Proof. do 4 eexists. hf_split; (vm_compute; reflexivity). Qed.
+Proof. do 4 eexists. ft_steps. Qed.
 
 (** Unbond of 1 000 bSei by alice, batch stays open: fee 5 = floor(1 000 x 0.5 %), claim 995 recorded,
     1 000 burnt; 966 666 coins back 999 000 + 995 claims.  Unbond of 600 000: fee 3 000. *)
@@ -291,7 +295,7 @@ Example feetx_example_unbond :
     1000 * (D / 200) / D = 5 /\
     wait_of h1 alice 1 = (995, 0) /\ tbal tb1 alice + 1000 = tbal tb alice /\
     ft_obs w1 = Some (966666, 999995, 966670833354166770).
-Proof. do 5 eexists. hf_split; (vm_compute; reflexivity). Qed.
+Proof. do 5 eexists. ft_steps. Qed.
 
 (** the same 31 s later: the batch is closed, priced at the rate recomputed after the fee; the coins
     of the batch leave the pool: 965 705 coins back the remaining 999 000 claims *)
@@ -303,7 +307,17 @@ Example feetx_example_unbond_closing :
     run tx_fuel worldSC [(alice, MWasm A_bsei (WCw20 (CSend A_hub 600000 HkUnbond)) [])] [] = Some (w2, tr2) /\
     w_hub w2 = Some h2 /\ wait_of h2 alice 1 = (597000, 0) /\ 600000 * (D / 200) / D = 3000 /\
     ft_obs w2 = Some (387830, 400000, 969575000000000000).
-Proof. do 6 eexists. hf_split; (vm_compute; reflexivity). Qed.
+Proof. do 6 eexists. ft_steps. Qed.
+
+(** the + 1 of a closing Unbond is attained: alice unbonds all 1 000 000 bSei when the epoch is over;
+    fee 5 000, the batch of 995 000 is priced at floor(966 666 / 995 000) and 966 665 coins leave:
+    1 coin backs 0 claims *)
+Example feetx_example_unbond_closing_dust :
+  exists w1 tr h1,
+    run tx_fuel worldSC [(alice, MWasm A_bsei (WCw20 (CSend A_hub 1000000 HkUnbond)) [])] [] = Some (w1, tr) /\
+    w_hub w1 = Some h1 /\ wait_of h1 alice 1 = (995000, 0) /\ h_batch h1 = mkBatch 2 0 0 /\
+    ft_obs w1 = Some (1, 0, D).
+Proof. do 3 eexists. ft_steps. Qed.
 
 (** Convert of 1 000 stSei by bob: 966 coins move, no-fee mint 999, fee 4 = floor(999 x 0.5 %),
     credited 995 bSei *)
@@ -314,7 +328,7 @@ Example feetx_example_conv_st_b :
     1000 * hs_ser rx_sS / D = 966 /\ 966 * D / hs_ber rx_sS = 999 /\ 999 * (D / 200) / D = 4 /\
     tbal tb1 bob = tbal tb bob + (999 - 4) /\
     ft_obs w1 = Some (967632, 1000995, 966670163187628309).
-Proof. do 4 eexists. hf_split; (vm_compute; reflexivity). Qed.
+Proof. do 4 eexists. ft_steps. Qed.
 
 (** Convert of 1 000 bSei by alice: fee 5 (proportional cap), 961 coins move, 994 stSei credited.
     Convert of 990 000 bSei: the restoring cap binds (344 < 4 950) and the pool ends exactly at the peg:
@@ -330,7 +344,7 @@ Example feetx_example_conv_b_st :
     w_hub worldS = Some h /\ w_bsei worldS = Some tb /\
     conv_bst_fee h rx_sS (tk_supply tb) 990000 = 344 /\ 990000 * (D / 200) / D = 4950 /\
     ft_obs w2 = Some (10000, 10000, D).
-Proof. do 8 eexists. hf_split; (vm_compute; reflexivity). Qed.
+Proof. do 8 eexists. ft_steps. Qed.
 
 (** *** the counter-example: dust does not stay bounded along a history *)
 Definition ft_dust_ops : list op :=
@@ -358,7 +372,7 @@ Example ft_dust_trace :
   ft_obs (run_ops (firstn 3 ft_dust_ops) worldS) = Some (217559, 217557, 1000009192993100658) /\
   ft_obs (run_ops (firstn 4 ft_dust_ops) worldS) = Some (435116, 435112, 1000009193035356413) /\
   ft_obs (run_ops ft_dust_ops worldS) = Some (1435116, 1435102, 1000009755404145489).
-Proof. hf_split; (vm_compute; reflexivity). Qed.
+Proof. ft_steps. Qed.
 
 (** a history of Bond / Convert operations (all successful), inside the envelope of C04w, starting
     from a slashed world with [PegBelow]: after the second operation (a bSei -> stSei conversion that
@@ -397,7 +411,7 @@ Definition ft_keep_ops : list op :=
 Example peg_below_history_nonvacuous :
   Forall peg_open_op ft_keep_ops /\ always EpochOpen ft_keep_ops worldS /\
   Forall peg_mint_op (firstn 2 ft_keep_ops) /\
-  ft_obs (run_ops ft_keep_ops worldS) = Some (1467632, 1514655, 968954646437703635).
+  ft_obs (run_ops ft_keep_ops worldS) = Some (1467632, 1515643, 968323015380270947).
 Proof.
   split; [|split; [|split]].
   - unfold ft_keep_ops. repeat apply Forall_cons; [| | | |apply Forall_nil].
@@ -424,3 +438,27 @@ Proof. intros o. reflexivity. Qed.
 Lemma def_peg_open_op : forall o, peg_open_op o <->
   peg_mint_op o \/ (exists user a funds, o = OTx user A_bsei (WCw20 (CSend A_hub a HkUnbond)) funds).
 Proof. intros o. reflexivity. Qed.
+
+Lemma def_ft_dust_ops : ft_dust_ops =
+  [ OTx alice A_hub (WHub HBond) [(usei, 12345)];
+    OTx alice A_bsei (WCw20 (CSend A_hub 903928 HkConvert)) [];
+    OTx alice A_hub (WHub HBond) [(usei, 108779)];
+    OTx alice A_hub (WHub HBond) [(usei, 217557)];
+    OTx bob A_hub (WHub HBond) [(usei, 1000000)] ].
+Proof. reflexivity. Qed.
+
+Lemma def_ft_keep_ops : ft_keep_ops =
+  [ OTx alice A_hub (WHub HBond) [(usei, 500000)];
+    OTx bob A_stsei (WCw20 (CSend A_hub 1000 HkConvert)) [];
+    OTx alice A_bsei (WCw20 (CSend A_hub 1000 HkUnbond)) [];
+    OTx bob A_hub (WHub HBondSt) [(usei, 777)] ].
+Proof. reflexivity. Qed.
+
+Lemma def_ft_obs : forall w, ft_obs w =
+  match hub_query_state w A_hub with
+  | Some s => Some (hs_bb s, w_claims_b w, hs_ber s)
+  | None => None end.
+Proof. reflexivity. Qed.
+
+Lemma def_worldSC : worldSC = run_ops [OAdvance 31] worldS.
+Proof. reflexivity. Qed.
